@@ -208,17 +208,21 @@ def knn_probe(seed, n_sets):
         n = rng.choice([6, 40, 150])
         pos = [[anchor[a] + rng.random() * width[a] * 0.999 for a in range(3)] for _ in range(n)]
         reqs.append({"op": "space_knn", "anchor": anchor, "width": width, "max_cell_width": mx, "positions": pos, "k": rng.choice([0, 1, 5])})
-    # anisotropic cells, nearest neighbour two rings away along the short axis while a farther one sits in ring 1 along the long axis
-    for wx, wy in ((3.0, 2.0), (2.0, 3.0)):
-        width = [wx, wy, 2.0] ; mx = 0.75
-        import math
+    # anisotropic cells: a candidate in ring 1 along the LONG axis at distance dA, the true nearest neighbour in ring 2 along the SHORT axis at
+    # distance dB < dA, with  dist_to_face + short width <= dB < dA < dist_to_face + long width  (a bound using the long width stops too early)
+    import math
+    for width in ([3.0, 2.0, 2.0], [2.0, 3.0, 2.0], [2.0, 2.0, 3.0]):
+        mx = 0.75
         cd = [math.ceil(width[a] / mx) for a in range(3)]; cw = [width[a] / cd[a] for a in range(3)]
-        long_a, short_a = (0, 1) if cw[0] > cw[1] else (1, 0)
-        c = [(1 + 0.5) * cw[0], (1 + 0.5) * cw[1], (1 + 0.5) * cw[2]]          # centre of cell (1,1,1)
-        far = list(c); far[long_a] += 0.5 * cw[long_a] + 0.5 * (cw[short_a] + cw[long_a]) * 0.5 + 0.3 * cw[short_a]
-        near = list(c); near[short_a] -= 1.5 * cw[short_a] + 1e-3
-        if 0 <= near[short_a] and far[long_a] < width[long_a]:
-            reqs.append({"op": "space_knn", "anchor": [0, 0, 0], "width": width, "max_cell_width": mx, "positions": [c, far, near], "k": 1})
+        la = max(range(3), key=lambda a: cw[a]); sa = min(range(3), key=lambda a: cw[a])
+        if cw[la] - cw[sa] < 1e-9: continue
+        c = [(1 + 0.5) * cw[a] for a in range(3)]                 # centre of cell (1,1,1): dist_to_face = min(cw)/2
+        dtf = min(cw) / 2
+        dB = dtf + cw[sa] + 0.25 * (cw[la] - cw[sa]); dA = dtf + cw[sa] + 0.75 * (cw[la] - cw[sa])
+        A = list(c); A[la] += dA          # lands in the neighbouring cell along the long axis (ring 1) as long as dA < 1.5 * cw[la]
+        B = list(c); B[sa] -= dB          # two cells down along the short axis needs dB > 0.5 * cw[sa] + cw[sa]... (ring 2 iff dB >= 1.5 * cw[sa])
+        if not (dB >= 1.5 * cw[sa] and dA < 1.5 * cw[la] and B[sa] >= 0 and A[la] < width[la]): continue
+        reqs.append({"op": "space_knn", "anchor": [0, 0, 0], "width": width, "max_cell_width": mx, "positions": [c, A, B], "k": 1})
     for rq, a in zip(reqs, replay_requests(reqs, timeout=600)):
         pos, k = rq["positions"], rq["k"]
         if "knn" not in a: return len(reqs), {"request": {k_: v for k_, v in rq.items() if k_ != "positions"}, "n": len(pos), "real": a, "what": "knn panics"}
